@@ -364,7 +364,7 @@ impl Check for C04 {
     fn run_case(&self, fam: usize, idx: u64, ctx: &mut Ctx) {
         let text = self.text(fam, idx);
         ctx.case_text(&text);
-        let opts = JudgeOpts { limits: crate::refmodel::interp::Limits { steps: 400_000, depth: 150 }, ..Default::default() };
+        let opts = JudgeOpts { limits: crate::refmodel::interp::Limits { steps: 3_000_000, depth: 150 }, ..Default::default() };
         let (j, o) = judge(&text, b"", &opts, ctx);
         if let Judged::Agree | Judged::Violation = j {
             if text.contains("if ") || text.contains("while ") || text.contains("until ") {
